@@ -356,7 +356,7 @@ var ratingVals = []float64{0, 0.01, 0.1, 0.3, 0.5, 0.9, 1, 1.0 / 3, 1.0 / 7, 2.0
 
 func newWorld(t *rapid.T, scripted bool) *world {
 	w := &world{t: t, lastChg: -1}
-	w.backoff = rapid.SampledFrom([]time.Duration{time.Second, 2 * time.Second, 5 * time.Second, 10 * time.Second, 30 * time.Second}).Draw(t, "backoff")
+	w.backoff = rapid.SampledFrom([]time.Duration{time.Second, 2 * time.Second, 5 * time.Second, 10 * time.Second, 30 * time.Second, 750 * time.Microsecond, 1500 * time.Microsecond, 20*time.Millisecond + 300*time.Microsecond}).Draw(t, "backoff")
 	phase := time.Duration(rapid.Int64Range(0, int64(time.Second)-1).Draw(t, "phase"))
 	clock.Freeze(epoch.Add(phase))
 	next := http.HandlerFunc(func(rw http.ResponseWriter, r *http.Request) {
